@@ -15,6 +15,13 @@ using namespace bpp;
 #include <iostream>
 using namespace std;
 
+#ifdef BPP_CORE_VERIF
+void (* bpp::verif::parameterAudit)(const Parameter*, const char*) = nullptr;
+#define BPP_CORE_VERIF_AUDIT(site) do { if (bpp::verif::parameterAudit) bpp::verif::parameterAudit(this, site); } while (0)
+#else
+#define BPP_CORE_VERIF_AUDIT(site)
+#endif
+
 /******************************************************************************/
 
 ParameterEvent::ParameterEvent(Parameter* parameter) : parameter_(parameter) {}
@@ -26,6 +33,7 @@ Parameter::Parameter(const std::string& name, double value, std::shared_ptr<Cons
 {
   setValue(value);
   setPrecision(precision);
+  BPP_CORE_VERIF_AUDIT("value-ctor");
 }
 
 Parameter::Parameter(const Parameter& p) :
@@ -43,6 +51,7 @@ Parameter& Parameter::operator=(const Parameter& p)
   precision_      = p.precision_;
   constraint_     = p.constraint_;
   listeners_      = p.listeners_;
+  BPP_CORE_VERIF_AUDIT("assign");
   return *this;
 }
 
@@ -62,6 +71,7 @@ void Parameter::setValue(double value)
     ParameterEvent event(this);
     fireParameterValueChanged(event);
   }
+  BPP_CORE_VERIF_AUDIT("setValue");
 }
 
 /** Precision: ********************************************************************/
@@ -79,6 +89,7 @@ void Parameter::setConstraint(std::shared_ptr<ConstraintInterface> constraint)
     throw ConstraintException("Parameter::setConstraint", this, value_);
 
   constraint_ = constraint;
+  BPP_CORE_VERIF_AUDIT("setConstraint");
 }
 
 
